@@ -178,6 +178,16 @@ def check_case(case: dict, only: Optional[str] = None) -> list:
         orig = FU.build_full(rec, dtype)
     except Exception as ex:
         raise Rejected(type(ex).__name__) from ex
+    # settings changed after construction (attribute assignment), then cloned: the clone must carry the current values
+    for path, leaf in (FU.walk(orig) if isinstance(orig, cheetah.Segment) else [((orig.name,), orig)]):
+        for p, v in (case.get("retune") or {}).get(leaf.name, {}).items():
+            if isinstance(leaf, cheetah.Segment) or not hasattr(leaf, p):
+                continue
+            kind = FU.SPEC.get(type(leaf).__name__, {}).get(p, "?")
+            try:
+                setattr(leaf, p, torch.tensor(v, dtype=dtype) if kind in FU.TENSOR_KINDS else (tuple(v) if kind == "r" else v))
+            except Exception:  # noqa: BLE001  the class refuses the assignment: nothing was changed
+                pass
     cname = type(orig).__name__
     snap0 = FU.Snapshot(orig)
     # ---- clause: cloning returns an object ...
@@ -410,8 +420,23 @@ def gen_element_case(rng, cls: Optional[str] = None) -> dict:
             _tame(rng, r)
             recs.append(r)
         rec = {"cls": "Segment", "name": "root", "elements": FU.nest_full(rng, recs, p=float(FU.pick(rng, 0.0, 0.3, 0.5)))}
-    return {"kind": "element", "record": rec, "dtype": dtype, "energy": float(np.exp(rng.uniform(np.log(2e7), np.log(2e9)))),
+    case = {"kind": "element", "record": rec, "dtype": dtype, "energy": float(np.exp(rng.uniform(np.log(2e7), np.log(2e9)))),
             "particles": FU.gen_particles(rng, 12).tolist()}
+    if rng.random() < 0.35:
+        # some settings (flags, methods, step counts, scalar strengths) are re-assigned after construction, before cloning
+        ret = {}
+        for lf in ([rec] if rec["cls"] != "Segment" else FU.leaves(rec["elements"])):
+            r2 = FU.gen_full(rng, lf["cls"], lf["name"], p_set=1.0)
+            _tame(rng, r2)
+            keep = {p: v for p, v in r2["args"].items()
+                    if v is not None and not isinstance(v, list) and p not in ("name", "dtype", "device") and rng.random() < 0.5}
+            if lf["cls"] in ("Dipole", "RBend", "TransverseDeflectingCavity"):
+                keep.pop("tracking_method", None)      # (kept valid: these classes track with one method only / known findings)
+            if keep:
+                ret[lf["name"]] = keep
+        if ret:
+            case["retune"] = ret
+    return case
 
 
 def _tame(rng, r) -> None:
